@@ -109,6 +109,10 @@ fn main() {
     if prop == "c13" {
         strict_err = Some(c13::generate(&mut s, thorough));
     }
+    #[cfg(feature = "c13b")]
+    if prop == "c13b" {
+        strict_err = Some(c13b::generate(&mut s, thorough));
+    }
     #[cfg(feature = "c14")]
     if prop == "c14" {
         strict_err = Some(c14::generate(&mut s, thorough));
